@@ -35,8 +35,8 @@ func init() {
 			Old: "\t\tdata = data[:length-4]\n", New: "\t\tdata = data[:length-5]\n",
 			Expect: "C16-R2 strip@mysql56BinlogEvent[alg=1]"},
 		Variant{ID: "c16-r2-undef-strips", Prop: "C16", File: "replication/binlog_event_mysql56.go",
-			Old: "\tcase BinlogChecksumAlgOff, BinlogChecksumAlgUndef:\n\t\t// There is no checksum.\n\t\treturn ev, nil, nil\n\tcase BinlogChecksumAlgCRC32:",
-			New: "\tcase BinlogChecksumAlgOff:\n\t\t// There is no checksum.\n\t\treturn ev, nil, nil\n\tcase BinlogChecksumAlgCRC32, BinlogChecksumAlgUndef:",
+			Old:    "\tcase BinlogChecksumAlgOff, BinlogChecksumAlgUndef:\n\t\t// There is no checksum.\n\t\treturn ev, nil, nil\n\tcase BinlogChecksumAlgCRC32:",
+			New:    "\tcase BinlogChecksumAlgOff:\n\t\t// There is no checksum.\n\t\treturn ev, nil, nil\n\tcase BinlogChecksumAlgCRC32, BinlogChecksumAlgUndef:",
 			Expect: "C16-R2 strip@mysql56BinlogEvent[alg=255]"},
 		Variant{ID: "c16-r3-serverid-offset", Prop: "C16", File: "replication/binlog_event_common.go",
 			Old: "binary.LittleEndian.Uint32(ev.Bytes()[5 : 5+4])", New: "binary.LittleEndian.Uint32(ev.Bytes()[4 : 4+4])",
@@ -428,6 +428,16 @@ func c16R4(a *A) {
 		for _, d := range dests {
 			want := strings.Split(sp.Want[d], "|")
 			got := uniq(append([]string{}, byDest[d]...))
+			if d == "len" && len(got) == 0 && sp.Method == "Query" {
+				// the status-variable block handed to the scanner function instead of being scanned in place
+				if g, _, _ := findStatusScan(f); g != nil && g != f {
+					for dd, rs := range byDest {
+						if strings.HasPrefix(dd, "arg:"+g.Name()+"#") {
+							got = uniq(append(got, rs...))
+						}
+					}
+				}
+			}
 			sort.Strings(want)
 			a.check(strings.Join(got, "|") == strings.Join(want, "|"), rule, "layout@"+name+"["+d+"]", w.pos(f.Pos()),
 				fmt.Sprintf("%s <- %s", d, strings.Join(want, "|")),
@@ -472,24 +482,45 @@ func c16R4(a *A) {
 			}
 			a.viol(rule, fmt.Sprintf("layout@%s[extra#%d]", name, i+1), w.pos(rd.Pos), "reads %s -> %v, which the documented layout of this event does not define", rd.Range, rd.Dests)
 		}
-		// endianness of multi-byte reads via encoding/binary
-		instrs(f, func(in ssa.Instruction) {
-			c, ok := in.(*ssa.Call)
-			if !ok {
-				return
+		// endianness of multi-byte reads via encoding/binary (in the decoder and, for Query, its status-variable scanner)
+		endianFns := []*ssa.Function{f}
+		if sp.Method == "Query" {
+			if g, _, _ := findStatusScan(f); g != nil && g != f {
+				endianFns = append(endianFns, g)
 			}
-			cal := c.Common().StaticCallee()
-			if cal == nil || cal.Pkg == nil || cal.Pkg.Pkg.Path() != "encoding/binary" || !strings.HasPrefix(cal.Name(), "Uint") {
-				return
-			}
-			a.check(strings.Contains(cal.String(), "littleEndian"), rule, fmt.Sprintf("endian@%s[%s]", name, w.posOf(c)), w.posOf(c), "little-endian", "multi-byte body field read big-endian; binlog event fields are little-endian")
-		})
+		}
+		for _, ef := range endianFns {
+			instrs(ef, func(in ssa.Instruction) {
+				c, ok := in.(*ssa.Call)
+				if !ok {
+					return
+				}
+				cal := c.Common().StaticCallee()
+				if cal == nil || cal.Pkg == nil || cal.Pkg.Pkg.Path() != "encoding/binary" || !strings.HasPrefix(cal.Name(), "Uint") {
+					return
+				}
+				a.check(strings.Contains(cal.String(), "littleEndian"), rule, fmt.Sprintf("endian@%s[%s]", name, w.posOf(c)), w.posOf(c), "little-endian", "multi-byte body field read big-endian; binlog event fields are little-endian")
+			})
+		}
 	}
 	// charset triple of the query event: three consecutive little-endian uint16
 	q := w.method(w.Repl, "binlogEvent", "Query")
 	if q != nil {
-		x := newWF(q)
-		x.bodyBases()
+		g, _, _ := findStatusScan(q)
+		if g == nil {
+			g = q
+		}
+		x := newWF(g)
+		if g == q {
+			x.bodyBases()
+		} else {
+			a.touch(g)
+			for _, p := range g.Params {
+				if _, isSlice := p.Type().Underlying().(*types.Slice); isSlice {
+					x.bases[p] = affConst(0)
+				}
+			}
+		}
 		starts := map[string]aff{}
 		for _, rd := range x.reads() {
 			for _, d := range rd.Dests {
@@ -525,36 +556,16 @@ func c16R5(a *A) {
 	if !a.need(q != nil, rule, "binlogEvent.Query") {
 		return
 	}
-	// find the loop phi of pos: a phi of type int in a block that has a back edge
-	var phi *ssa.Phi
-	var code ssa.Value
-	for _, b := range q.Blocks {
-		for _, in := range b.Instrs {
-			p, ok := in.(*ssa.Phi)
-			if !ok || !isIntegerType(p.Type()) {
-				continue
-			}
-			for _, pr := range b.Preds {
-				if b.Dominates(pr) {
-					phi = p
-				}
-			}
-		}
-	}
-	if !a.need(phi != nil, rule, "status-variable scan loop in Query") {
+	// the scanner: Query itself or an in-package function it hands the status-variable block to
+	g, phi, code := findStatusScan(q)
+	if !a.need(g != nil && phi != nil, rule, "status-variable scan loop in Query") {
 		return
 	}
-	// code = load of vars[phi]
-	instrs(q, func(in ssa.Instruction) {
-		if u, ok := in.(*ssa.UnOp); ok && u.Op == token.MUL {
-			if ia, ok := u.X.(*ssa.IndexAddr); ok && ia.Index == ssa.Value(phi) {
-				code = u
-			}
-		}
-	})
 	if !a.need(code != nil, rule, "status-variable code byte read") {
 		return
 	}
+	a.touch(g)
+	q = g
 	// documented: code -> size after the code byte; "1+n" = one length byte plus n; "1+n+1" = plus NUL
 	doc := map[int64]string{0: "4", 1: "8", 2: "1+n+1", 3: "4", 4: "6", 6: "1+n"}
 	head := phi.Block()
@@ -568,7 +579,7 @@ func c16R5(a *A) {
 		// edges of phi coming from executable back-edge predecessors
 		var terms []string
 		for i, pr := range head.Preds {
-			if !head.Dominates(pr) || !res.Exec[pr] {
+			if !head.Dominates(pr) || !res.Exec[pr] || !res.edgeExec(pr, head) {
 				continue
 			}
 			x := newWF(q)
@@ -596,4 +607,66 @@ func c16R5(a *A) {
 		a.check(len(terms) == 1 && terms[0] == wantT, rule, key, w.pos(q.Pos()), "advances by "+want+" bytes after the code byte",
 			fmt.Sprintf("status variable %d advances the scan by %v bytes after its code; documented size is %s: the charset (and anything after) is read from the wrong offset when this variable is present", c, terms, want))
 	}
+}
+
+// findStatusScan locates the status-variable scanner: a loop whose position counter phi indexes a byte slice to fetch the
+// code that the loop body dispatches on. It is looked for in f and in the in-package functions f calls (depth 2).
+func findStatusScan(f *ssa.Function) (*ssa.Function, *ssa.Phi, ssa.Value) {
+	var try func(g *ssa.Function, depth int) (*ssa.Function, *ssa.Phi, ssa.Value)
+	try = func(g *ssa.Function, depth int) (*ssa.Function, *ssa.Phi, ssa.Value) {
+		var cands []*ssa.Phi
+		for _, b := range g.Blocks {
+			if !isLoopHeader(b) {
+				continue
+			}
+			for _, in := range b.Instrs {
+				if p, ok := in.(*ssa.Phi); ok && isIntegerType(p.Type()) {
+					cands = append(cands, p)
+				}
+			}
+		}
+		for _, phi := range cands {
+			var code ssa.Value
+			instrs(g, func(in ssa.Instruction) {
+				if u, ok := in.(*ssa.UnOp); ok && u.Op == token.MUL {
+					if ia, ok := u.X.(*ssa.IndexAddr); ok && ia.Index == ssa.Value(phi) {
+						code = u
+					}
+				}
+			})
+			if code != nil {
+				return g, phi, code
+			}
+		}
+		if depth >= 2 {
+			return nil, nil, nil
+		}
+		var out *ssa.Function
+		var op *ssa.Phi
+		var oc ssa.Value
+		instrs(g, func(in ssa.Instruction) {
+			c, ok := in.(*ssa.Call)
+			if !ok || out != nil {
+				return
+			}
+			cal := c.Common().StaticCallee()
+			if cal == nil || cal.Blocks == nil || cal.Pkg != f.Pkg || cal == g {
+				return
+			}
+			hasSlice := false
+			for _, a := range c.Common().Args {
+				if _, isSlice := a.Type().Underlying().(*types.Slice); isSlice {
+					hasSlice = true
+				}
+			}
+			if !hasSlice {
+				return
+			}
+			if h, p, cd := try(cal, depth+1); h != nil {
+				out, op, oc = h, p, cd
+			}
+		})
+		return out, op, oc
+	}
+	return try(f, 0)
 }
